@@ -31,8 +31,8 @@ P = {
  "C08": ("exploration", "normalised round-trip equality; hostile-bytes decoding in a child process with panic/death/allocation oracle",
          "Generated frames through static and dynamic codecs (incl. stream variants) must round-trip; structure-aware mutated and random bytes must yield frame-or-error without panic, death, or disproportionate allocation.",
          "Allocation bound 1MiB+64*len(input) is a proportionality proxy.", "§3/C08"),
- "C09": ("exploration", "Go race detector + state-based deadlock detector + serial-equivalence oracle under concurrent stress with injected yields",
-         "One DB under many goroutines; race reports in repo code are violations; final content must equal a serial result; persisted index must be sorted/non-overlapping.",
+ "C09": ("exploration", "Go race detector + state-based deadlock detector + serial-equivalence oracle under concurrent stress with injected yields; porcupine linearizability check of recorded same-key channel create/delete histories",
+         "One DB under many goroutines; race reports in repo code are violations; final content must equal a serial result; persisted index must be sorted/non-overlapping; per-key create/delete/retrieve histories must be linearizable and the surviving channels usable and unchanged after reopen.",
          "Only schedules produced are covered; deadlock decided by state not duration.", "§3/C09"),
  "C10": ("exploration", "samples-in-view reference model, adjacency and traversal-completeness monitors on unary and cesium iterators",
          "Command sequences on iterators over generated layouts; Value() must equal the stored samples inside View(); consecutive steps adjacent; full traversals complete and duplicate-free.",
